@@ -19,7 +19,8 @@ Definition m_check_mso (s : bytes) : bool := check_view Mso (lex s).
 Definition m_no_vml_outside (s : bytes) : bool := no_vml_outside Closed (lex s).
 
 Definition m_merge_check (a b : bytes) : bool :=
-  let xs := lex a in let ys := lex b in merge_check (S (List.length xs + List.length ys)) xs ys.
+  (* modulo the attributes of start tags: Skel.Compose.body_ok_modulo_attrs *)
+  let xs := List.map strip_attrs (lex a) in let ys := List.map strip_attrs (lex b) in merge_check (S (List.length xs + List.length ys)) xs ys.
 
 Definition m_std_texts (s : bytes) : option (list bytes) := view_texts Std (lex s).
 Definition m_mso_texts (s : bytes) : option (list bytes) := view_texts Mso (lex s).
